@@ -562,6 +562,16 @@ def _grid(tier):
 
 
 MUTANTS = [
+    dict(name="original F-C02b: sets hashed in iteration order", file="strax/utils.py",
+         old="        elif isinstance(obj, set):\n", new="        elif False:\n"),
+    dict(name="original F-C02c: registry merged into the config dict for the context hash", file="strax/context.py",
+         old="        return strax.deterministic_hash((_base_hash_on_config, _base_hash_on_plugins))",
+         new="        _base_hash_on_config.update(_base_hash_on_plugins)\n        return strax.deterministic_hash(_base_hash_on_config)"),
+    dict(name="hash memoised on ==-equal values", file="strax/utils.py",
+         old='    return b32encode(digest)[:length].decode("ascii").lower()\n',
+         new='    memo = globals().setdefault("_MEMO", {})\n    try:\n        return memo.setdefault((hashable, length), '
+             'b32encode(digest)[:length].decode("ascii").lower())\n    except TypeError:\n        '
+             'return b32encode(digest)[:length].decode("ascii").lower()\n'),
     dict(name="untracked option enters the lineage", file="strax/context.py",
          old="                for option, setting in plugin.config.items()\n                if plugin.takes_config[option].track\n",
          new="                for option, setting in plugin.config.items()\n"),
